@@ -38,6 +38,8 @@ VIOLATION_MSGS = [
     ('invariant not satisfied', 'invariant'),
     ('loop invariant not', 'invariant'),
     ('assertion failed', 'assertion'),
+    ('unable to prove post-condition of closure', 'closure-postcondition'),
+    ('unable to prove assertion', 'assertion'),
     ('possible arithmetic underflow/overflow', 'overflow'),
     ('possible division by zero', 'div-by-zero'),
     ('possible bit shift underflow/overflow', 'shift-overflow'),
@@ -510,7 +512,18 @@ def main():
         for f in r.failures:
             print(f"  FAIL {f['function']} [{f['kind']}] labels={f['labels']} props={f['props']} line={f['gen_line']}: {f['clause'][:120]}")
         if r.status == 'undecided' and '--raw' in sys.argv:
-            print(r.raw_err[-4000:])
+            n = 0
+            for l in r.raw_err.split('\n'):
+                if l.startswith('{'):
+                    try:
+                        d = json.loads(l)
+                    except Exception:
+                        continue
+                    if d.get('level') == 'error' and d.get('rendered') and n < 6:
+                        print(d['rendered'][:1500])
+                        n += 1
+            if n == 0:
+                print(r.raw_err[-3000:])
         return {'ok': 0, 'failed': 1, 'undecided': 2}[r.status]
     return 2
 
